@@ -15,7 +15,7 @@ KEYWORDS = {
     'SELECT', 'FROM', 'WHERE', 'GROUP', 'BY', 'AS', 'AND', 'OR', 'NOT', 'IS', 'NULL',
     'UNION', 'ALL', 'WITH', 'ORDER', 'LIMIT', 'CASE', 'WHEN', 'THEN', 'ELSE', 'END',
     'DISTINCT', 'DROP', 'TABLE', 'IF', 'EXISTS', 'CREATE', 'ATTACH', 'DATABASE', 'DESC',
-    'ASC', 'IN', 'CAST', 'TRUE', 'FALSE',
+    'ASC', 'IN', 'CAST', 'TRUE', 'FALSE', 'RECURSIVE',
 }
 
 TOKEN_RE = re.compile(r"""
@@ -51,7 +51,6 @@ def replace_range(sql):
 
 
 def tokenize(sql):
-  sql = replace_range(sql)
   toks = []
   pos = 0
   while pos < len(sql):
@@ -161,8 +160,11 @@ class Parser:
   # -- select
   def select(self):
     withs = []
+    recursive = False
     if self.at_kw('WITH'):
       self.eat_kw('WITH')
+      if self.try_eat('kw', 'RECURSIVE'):
+        recursive = True
       while True:
         name = self.eat('name')
         self.eat_kw('AS')
@@ -173,6 +175,13 @@ class Parser:
         if not self.try_eat('op', ','):
           break
     core = self.select_core()
+    if self.at_kw('UNION'):
+      parts = [{'with': [], 'core': core, 'order': None, 'limit': None, 'recursive': False}]
+      while self.at_kw('UNION'):
+        self.eat_kw('UNION', 'ALL')
+        parts.append({'with': [], 'core': self.select_core(), 'order': None, 'limit': None,
+                      'recursive': False})
+      core = ('union', parts)
     order = None
     limit = None
     if self.at_kw('ORDER'):
@@ -191,7 +200,7 @@ class Parser:
     if self.at_kw('LIMIT'):
       self.eat_kw('LIMIT')
       limit = self.eat('num')
-    return {'with': withs, 'core': core, 'order': order, 'limit': limit}
+    return {'with': withs, 'core': core, 'order': order, 'limit': limit, 'recursive': recursive}
 
   def select_core(self):
     if self.at('nil'):
@@ -253,8 +262,9 @@ class Parser:
       self.eat('op', '(')
       q = self.select()
       self.eat('op', ')')
-      self.eat_kw('AS')
-      return ('sub', q, self.eat('name'))
+      if self.try_eat('kw', 'AS'):
+        return ('sub', q, self.eat('name'))
+      return ('sub', q, '__anon%d' % self.i)
     if self.at('name') and self.peek()[1].upper() == 'JSON_EACH' and self.at('op', '(', 1):
       self.eat('name')
       self.eat('op', '(')
